@@ -46,6 +46,9 @@ CHECKS = {
  "C12": dict(technique="round-trip PBT schema -> SDL -> schema with a model of the printed text, history sequences of print calls, and differential against a fresh interpreter",
              text="SDL-built and code-built schemas from specs are printed under 7 option sets in drawn call histories; the text must parse, rebuild to the spec's structure, print back identically, carry exactly the expected directive applications per element, equal every earlier output for the same (schema, options) and the output of a fresh interpreter process.",
              note="Trusted: vlib/ref/schemastruct.py, reference parser for reading the printed text, subprocess worker (python -m props.c12).", ref="3/C12"),
+ "C13": dict(technique="PBT with labelled violation injection into generated valid specs (32 injectors, k<=4 per schema), type-order permutations, and a resolver-registration history model",
+             text="Valid code-built schemas must validate under every drawn type order; each injected rule violation (uniquely named element) must be reported by SchemaValidationError together with the others; register_resolver/validate histories must follow the model 'valid iff no currently registered resolver is bad'.",
+             note="Trusted: injectors in props/c13.py (tokens are generated element names, not message texts), vlib/gen/schema.py build_code.", ref="3/C13"),
 }
 ALL = ["C%02d" % i for i in range(1, 21)]
 NA_REASON = "check not built yet (work in progress; see DESIGN.md section 3 for the planned design)"
